@@ -17,7 +17,7 @@ import random
 import warnings
 from pathlib import Path
 
-from . import core, lib
+from . import core, lib, spell
 from . import rules_common as rc
 
 TRUSTED = rc.TRUSTED_COMMON + [
@@ -216,7 +216,23 @@ def run(tier, seed, replay=None):
                                        "what": f"_glob_match({text!r}, {pat!r}) = {got}; with '*'/'?' confined to one segment it is {want}",
                                        "signature_text": f"one-level pat={pat!r} text={text!r}"})
 
-        ORACLES = {"pattern-respell": pattern_case, "respell": respell_case, "confine": confine_case, "cwd-rename": rename_case, "one-level": level_case}
+        def spell_case(case):
+            """case: see spell.build - one rule whose pattern names files in one spelling, a command / target that names files in
+            another; the rule must fire exactly when they are the same files (glob tail: when fnmatch says so on the real paths)"""
+            cfg_text, subject, expected = spell.build(sc, case)
+            got = spell.fired(C, sc, case, cfg_text, subject)
+            out.count("spell." + case["rule"], f"{case.get('tpl', '-')}:{'tail' if case.get('tail') else 'same' if case['same'] else 'other'}:fires={expected}")
+            if got != expected:
+                subj = subject if isinstance(subject, str) else " ".join(subject)
+                out.violations.append({
+                    "kind": "spell", "case": case, "config": spell.unsub(sc, cfg_text), "subject": spell.unsub(sc, subj),
+                    "what": f"{case['rule']} rule {spell.unsub(sc, cfg_text)!r} on {spell.unsub(sc, subj)!r}: fires={got}; pattern and "
+                            f"{'target' if case['rule'] == 'redirect' else 'command'} name {'the same' if case['same'] else 'different'} file(s)"
+                            + (f", fnmatch on the real paths says {expected}" if case.get("tail") else f", so it must{'' if expected else ' not'} fire"),
+                    "signature_text": f"spell rule={case['rule']} tpl={case.get('tpl')} exact={case.get('exact')} star={case.get('star')} extra={case.get('extra')} "
+                                      f"tail={case.get('tail')} p={case['p']!r} q={case['q']!r}"})
+
+        ORACLES = {"spell": spell_case, "pattern-respell": pattern_case, "respell": respell_case, "confine": confine_case, "cwd-rename": rename_case, "one-level": level_case}
         if replay:
             fn = ORACLES.get(replay.get("kind"))
             if fn and replay.get("case"):
@@ -408,6 +424,88 @@ def run(tier, seed, replay=None):
                     "v": rng.choice(["f", "", "f.py", "a/b", "/", "f/", "ab", "x", "é", "a b", ".", "d/e/f"]), "q": rng.random() < 0.4}
             level_case(case)
             out.case(case)
+
+        # ---------------------------------------------------- E. spelling families: pattern spelling x command spelling x rule kind x position
+        links = spell.scratch_links(sc)
+        files = spell.scratch_files(sc)
+        depth = 1 if quick else 2
+        fams = {n: spell.family(pth, sc.cwd, sc.home, links, depth) for n, pth, _ in files}
+        out.extra["spelling_family_sizes"] = {n: len(f) for n, f in fams.items()}
+        U = lambda x: spell.unsub(sc, x)
+        n_spell = 0
+        DECS = rc.VERDICTS
+
+        def emit(rule, tpl, ps, qs, same, i, tail=None, mode=None):
+            nonlocal n_spell
+            mode = (i // 3) % 4 if mode is None else mode     # 0: plain prefix rule, 1: anchored, 2: trailing ' *', 3: plain + extra word
+            case = {"rule": rule, "dec": DECS[i % 3], "exact": mode == 1, "star": mode == 2, "msg": i % 2 == 0, "tpl": tpl,
+                    "extra": 1 if (mode == 3 or (i // 12) % 2) and not tail else 0, "p": [U(x) for x in ps], "q": [U(x) for x in qs],
+                    "same": same, "tail": tail}
+            spell_case(case)
+            out.case(case, nontrivial=True)
+            n_spell += 1
+
+        cap_all = 30 if quick else 0
+        for fi, (name, pth, fkind) in enumerate(files):
+            fam = fams[name]
+            wfam = [x for x in fam if spell.pathword(x)]
+            # all pairs (pattern spelling, command spelling) for a command rule with the path as first argument, and for a redirect rule
+            P = spell.capped(wfam, cap_all, fi) if cap_all else wfam
+            i = fi
+            for pspell in P:
+                for qspell in P:
+                    emit("command", "arg1", [pspell], [qspell], True, i)
+                    i += 1
+            R = spell.capped(fam, cap_all, fi + 1) if cap_all else fam
+            for pspell in R:
+                for qspell in R:
+                    emit("redirect", None, [pspell], [qspell], True, i)
+                    i += 1
+            # every member of the full family on either side, partners rotated: other positions of the pattern, alias, after
+            for tpl in ("name", "arg2", "mid"):
+                for pspell, qspell in spell.rotations(wfam, wfam, 2):
+                    emit("command", tpl, [pspell], [qspell], True, i)
+                    i += 1
+            for pspell, qspell in spell.rotations(wfam, wfam, 2):
+                emit("alias", "name", [pspell], [qspell], True, i)
+                emit("after", ("arg1", "name", "mid")[i % 3], [pspell], [qspell], True, i + 1)
+                i += 2
+            for pspell, qspell in spell.rotations(fam, fam, 2):
+                emit("redirect", None, [pspell], [qspell], True, i)
+                i += 1
+            for pspell in wfam:     # the pattern is the command's own text
+                emit("command", ("arg1", "name", "arg2", "mid")[i % 4], [pspell], [pspell], True, i)
+                i += 1
+        # two path words in one pattern
+        for fi, (name, pth, fkind) in enumerate(files):
+            name2 = files[(fi + 4) % len(files)][0]
+            A = [x for x in fams[name] if spell.pathword(x)]
+            B = [x for x in fams[name2] if spell.pathword(x)]
+            for k, (pa, qa) in enumerate(spell.rotations(A, A, 1)):
+                emit("command", "two", [pa, B[(k * 5) % len(B)]], [qa, B[(k * 3 + 1) % len(B)]], True, k + fi)
+        # different files never satisfy a literal rule
+        for fi, (n1, p1, _) in enumerate(files):
+            for fj, (n2, p2, _) in enumerate(files):
+                if fi == fj:
+                    continue
+                A = spell.capped([x for x in fams[n1] if spell.pathword(x)], 10, fj)
+                B = spell.capped([x for x in fams[n2] if spell.pathword(x)], 10, fi)
+                for k, (pa, qb) in enumerate(spell.rotations(A, B, 1)):
+                    rule = ("command", "redirect", "alias", "after")[k % 4]
+                    emit(rule, ("arg1", "name", "mid", "arg2")[(k // 4) % 4] if rule != "alias" else "name", [pa], [qb], False, k + fi + fj)
+        # glob characters inside a path token: the directory respelled, the tail a glob
+        inside = {"cwd": "topfile", "dir": "file", "homedir": "homefile", "parent": "cwd", "grandparent": "home", "home": "homedir"}
+        for dn, fn in inside.items():
+            D = fams[dn]
+            F = spell.capped(fams[fn], 12, 3)
+            for k, dsp in enumerate(D):
+                for j in range(2):
+                    tail = spell.TAILS[(k + j * 3) % len(spell.TAILS)]
+                    qspell = F[(k * 5 + j) % len(F)]
+                    emit("redirect", None, [dsp], [qspell], True, k + j, tail=tail, mode=0)
+                    if spell.pathword(qspell):
+                        emit(("command", "after")[(k + j) % 2], ("arg1", "arg2", "mid")[k % 3], [dsp], [qspell], True, k + j, tail=tail, mode=0)
+        out.extra["spelling_cases"] = n_spell
 
         n, mism = core.coq_crosscheck("C09", xcheck)
         out.extra["coq_vm_crosscheck"] = {"cases": n, "mismatches": len(mism)}
